@@ -152,7 +152,10 @@ def shard(ctx, budget_s):
             items.append(("arp", pkt.eth(dm, e.cmac, ET_ARP, pkt.arp(op, sha, e.cip, tha, tpa) + b"\0" * rng.randrange(0, 19))))
         for _ in range(60):
             e = gen.endp(rng, cfg, True)
-            target = e.sip if rng.random() < 0.6 else gen.rnd_ip6(rng)
+            target = e.sip if rng.random() < 0.5 else gen.rnd_ip6(rng)
+            others = [a for a in (cfg.selfips or []) if len(a) == 16 and a != e.sip]
+            if others and rng.random() < 0.3:
+                target = rng.choice(others)      # unicast to one handled address, soliciting another one
             opts = rng.choice([b"", b"\x01\x01" + e.cmac, b"\x0e\x01" + bytes(6), b"\x01\x01" + e.cmac + b"\x0e\x01" + bytes(6),
                                b"\x0e\x02" + bytes(14) + b"\x01\x01" + e.cmac])
             code = rng.choice([0, 0, 0, 0, 1, 255])
